@@ -62,6 +62,18 @@ class EvalStep(Harness):
                 parts = [none(ex)] * len(np_fields)
                 parts[np_fields.index('raw_value')] = some(ex, newn) if raw_present else none(ex)
                 res = ok(variant(ex, 'QueryReply', 'Number', [Struct('NumberParts', parts)]))
+            elif kind in ('Conversion', 'Duration'):
+                # replies that carry a number of their own (the value in the target unit / the raw time): they are not the
+                # result of a plain expression, so `ans` must not pick them up
+                np_fields = ex.prog.src.structs['NumberParts']
+                parts = [none(ex)] * len(np_fields)
+                parts[np_fields.index('raw_value')] = some(ex, newn)
+                inner = Struct('NumberParts', parts)
+                if kind == 'Conversion':
+                    payload_ = new_box(make_struct(ex, 'ConversionReply', {'value': inner}))
+                else:
+                    payload_ = new_box(make_struct(ex, 'DurationReply', {'raw': inner}))
+                res = ok(variant(ex, 'QueryReply', kind, [payload_]))
             else:
                 res = ok(variant(ex, 'QueryReply', kind, [Opaque('payload:' + kind)]))
         ex.env['eval_query_result'] = res
